@@ -200,7 +200,14 @@ def inline_consts(src):
             else:
                 out.append(v)
         return m.group(1) + str(sum(out)) + m.group(3)
-    return re.sub(r"(\.add\(|\[)([^()\[\]]*)(\)|\.\.\]|\])", fold, src)
+    src = re.sub(r"(\.add\(|\[)([^()\[\]]*)(\)|\.\.\]|\])", fold, src)
+    # array lengths spelled `<X as Backend>::Lanes::USIZE` read as the number of lanes `impl Backend for X`
+    # declares in this file (`[u8; 16]`)
+    lanes = dict(re.findall(r"impl\s+Backend\s+for\s+(\w+)\s*\{\s*type\s+Lanes\s*=\s*U(\d+)\s*;", src))
+    if lanes:
+        src = re.sub(r"(\[\s*[\w.]+\s*;\s*)<\s*(\w+)\s+as\s+Backend\s*>::Lanes::USIZE(\s*\])",
+                     lambda m: m.group(1) + lanes[m.group(2)] + m.group(3) if m.group(2) in lanes else m.group(0), src)
+    return src
 
 
 def read(rel):
